@@ -30,6 +30,16 @@ type badStringer struct{}
 
 func (badStringer) String() string { panic("stringer exploded") }
 
+// codedPanic: an application error that brings its own JSON-RPC form (RPCErrorCodec); used as a
+// panic payload it is still a panic, not an application error
+type codedPanic struct{ msg string }
+
+func (e *codedPanic) Error() string { return e.msg }
+func (e *codedPanic) ToJSONRPCError() (jsonrpc.JSONRPCError, error) {
+	return jsonrpc.JSONRPCError{Code: 7, Message: e.msg}, nil
+}
+func (e *codedPanic) FromJSONRPCError(j jsonrpc.JSONRPCError) error { e.msg = j.Message; return nil }
+
 // PanicSrv: one method per panic payload, plus healthy siblings.
 type PanicSrv struct {
 	s     *vsched.Sched
@@ -61,6 +71,12 @@ func (h *PanicSrv) doPanic(payload string) {
 		panic(e)
 	case "badstringer":
 		panic(badStringer{})
+	case "codec": // an error type the library knows how to put on the wire by itself
+		panic(&codedPanic{msg: "insufficient funds"})
+	case "rpcerr": // the library's own wire error type
+		panic(&jsonrpc.JSONRPCError{Code: 7, Message: "insufficient funds"})
+	case "wrapped": // an error chain with a coded error inside
+		panic(fmt.Errorf("while paying: %w", &codedPanic{msg: "insufficient funds"}))
 	case "aborthandler": // the sentinel net/http treats specially
 		panic(http.ErrAbortHandler)
 	}
@@ -154,7 +170,7 @@ func init() {
 		Cfg:      vsched.Config{Horizon: 10 * time.Second},
 		Params: func(tier string) []Param {
 			var ps []Param
-			payloads := []string{"string", "error", "nilmap", "nilderef", "custom", "nil", "nilerr", "badstringer", "aborthandler"}
+			payloads := []string{"string", "error", "nilmap", "nilderef", "custom", "nil", "nilerr", "badstringer", "aborthandler", "codec", "rpcerr", "wrapped"}
 			kinds := []string{"unary", "notify", "chan", "reverse", "cancelled"}
 			for _, k := range kinds {
 				for i, pl := range payloads {
